@@ -98,7 +98,7 @@ func c05Idle(o c05Opts, outChunks, inChunks [][]byte) string {
 // is over — the remote side prints probe (a list of reads) and the user types. Everything of the probe
 // must pass; of the echo phase only the first read after the command may be replaced by CR LF, and only
 // if it is exactly the command (the documented one-shot suppression).
-func c05Drag(o c05Opts, echo, probe [][]byte) string {
+func c05Drag(o c05Opts, echo, probe [][]byte, typeAtMs int) string {
 	viol := ""
 	dir, err := os.MkdirTemp(scratchDir(), "drag")
 	if err != nil {
@@ -116,12 +116,21 @@ func c05Drag(o c05Opts, echo, probe [][]byte) string {
 		vs.WaitSettled(func() bool { return false }, 0)
 		keys.Write([]byte(path + " "))
 		vs.WaitSettled(func() bool { return false }, 0)
-		vtime.Sleep(600 * time.Millisecond) // 300 ms delay + Ctrl-C + 200 ms + the command
+		if typeAtMs > 0 {
+			// the user types something else while the wrapper is busy with the drop (its Ctrl-C goes out after 300 ms, the command 200 ms later)
+			vtime.Sleep(time.Duration(typeAtMs) * time.Millisecond)
+			keys.Write([]byte("x"))
+			vs.WaitSettled(func() bool { return false }, 0)
+			vtime.Sleep(time.Duration(600-typeAtMs) * time.Millisecond)
+		} else {
+			vtime.Sleep(600 * time.Millisecond) // 300 ms delay + Ctrl-C + 200 ms + the command
+		}
 		vs.WaitSettled(func() bool { return false }, 0)
-		if string(c2s.Written) != "\x03trz\r" {
+		if typeAtMs == 0 && string(c2s.Written) != "\x03trz\r" {
 			viol = fmt.Sprintf("tool: the drag did not happen as modelled: the remote side received %q", c2s.Written)
 			return
 		}
+		sentSoFar := string(c2s.Written)
 		want := []byte("$ ")
 		first := true // the one read the suppression may claim: the first one after the command was typed
 		expect := func(c []byte) {
@@ -143,7 +152,7 @@ func c05Drag(o c05Opts, echo, probe [][]byte) string {
 			viol = "the filter thinks a transfer is in progress after a drag attempt that started none"
 			return
 		}
-		wantIn := "\x03trz\r"
+		wantIn := sentSoFar
 		for _, c := range probe {
 			s2c.Write(c)
 			expect(c)
@@ -304,7 +313,7 @@ func c05Run(j vs.Job) *vs.JobResult {
 			o := c05Opts{true, mask&1 != 0, mask&2 != 0, mask&4 != 0}
 			for _, e := range echoes {
 				for _, pr := range probes {
-					v := c05Drag(o, e, pr)
+					v := c05Drag(o, e, pr, 0)
 					r.Execs++
 					r.Nontrivial++
 					if len(r.Samples) < 2 {
@@ -320,6 +329,21 @@ func c05Run(j vs.Job) *vs.JobResult {
 							return r
 						}
 					}
+				}
+			}
+		}
+		// the user types while the wrapper handles the drop: before its Ctrl-C, between Ctrl-C and command, right after
+		for _, at := range []int{100, 350, 450, 550} {
+			for _, pr := range probes {
+				v := c05Drag(c05Opts{true, false, false, false}, [][]byte{[]byte("^C\r\n$ ")}, pr, at)
+				r.Execs++
+				r.Nontrivial++
+				if strings.HasPrefix(v, "tool: ") {
+					r.ToolErr = v
+					return r
+				}
+				if v != "" {
+					r.Violate("c05:drag-typed:"+firstWords(v, 6), fmt.Sprintf("typed input %d ms after the drop: %s", at, v), nil)
 				}
 			}
 		}
